@@ -59,8 +59,12 @@ func refID(s uint16) uint16 {
 }
 
 // counterState checks the transition out of counter state s (and the one after it).
-func counterState(s uint16) []explore.ClauseFail {
-	var fails []explore.ClauseFail
+func counterState(s uint16) (fails []explore.ClauseFail) {
+	defer func() {
+		if r := recover(); r != nil {
+			fails = append(fails, explore.ClauseFail{Clause: "no-panic", Sig: fmt.Sprintf("panic:counter-state:%d", s), Msg: fmt.Sprintf("counter starting at %d panicked: %v", s, r)})
+		}
+	}()
 	c := session.NewIDCounterWithNext(packet.ID(s))
 	a := uint16(c.NextID())
 	b := uint16(c.NextID())
